@@ -364,6 +364,7 @@ pub unsafe extern "C" fn writev(fd: c_int, iov: *const libc::iovec, cnt: c_int) 
 }
 #[unsafe(no_mangle)]
 pub unsafe extern "C" fn recv(fd: c_int, buf: *mut c_void, len: size_t, flags: c_int) -> ssize_t {
+    crate::clustersim::coop_block(fd);
     if let Some((forced, _)) = pre_io(fd, Dir::R, len) { if forced < 0 { sys::set_errno(libc::EAGAIN); return -1; } }
     let r = unsafe { sc!(libc::SYS_recvfrom, fd, buf, len, flags, 0, 0) };
     post_io(fd, Dir::R, len, r);
@@ -371,9 +372,17 @@ pub unsafe extern "C" fn recv(fd: c_int, buf: *mut c_void, len: size_t, flags: c
 }
 #[unsafe(no_mangle)]
 pub unsafe extern "C" fn read(fd: c_int, buf: *mut c_void, len: size_t) -> ssize_t {
+    crate::clustersim::coop_block(fd);
     if let Some((forced, _)) = pre_io(fd, Dir::R, len) { if forced < 0 { sys::set_errno(libc::EAGAIN); return -1; } }
     let r = unsafe { sc!(libc::SYS_read, fd, buf, len) };
     post_io(fd, Dir::R, len, r);
+    unsafe { ret_errno(r) as ssize_t }
+}
+/// `recvmsg` (SCM_RIGHTS transfers of listeners): only the cooperative-blocking point of the cluster tier.
+#[unsafe(no_mangle)]
+pub unsafe extern "C" fn recvmsg(fd: c_int, msg: *mut libc::msghdr, flags: c_int) -> ssize_t {
+    crate::clustersim::coop_block(fd);
+    let r = unsafe { sc!(libc::SYS_recvmsg, fd, msg, flags) };
     unsafe { ret_errno(r) as ssize_t }
 }
 #[unsafe(no_mangle)]
